@@ -365,7 +365,12 @@ func c20Gen(rt *rapid.T, backends []string) *hist.Case {
 			}
 			return act(a)
 		case 9:
-			return act(hist.Action{Kind: pick(rt, "how", []string{"disconnect", "drop"}), Client: cl})
+			a := hist.Action{Kind: pick(rt, "how", []string{"disconnect", "drop"}), Client: cl}
+			if a.Kind == "disconnect" && versions[cl] == 5 && rapid.Bool().Draw(rt, "disc-expiry") {
+				e := pick(rt, "new-expiry", []uint32{50, 5000}) // the interval the restored session must expire by
+				a.DiscExpiry = &e
+			}
+			return act(a)
 		case 10, 11:
 			return connect(cl, rapid.IntRange(0, 3).Draw(rt, "clean") == 0, autoAck)
 		default:
@@ -374,12 +379,19 @@ func c20Gen(rt *rapid.T, backends []string) *hist.Case {
 	})
 	c.Actions = append(c.Actions, rapid.SliceOfN(action, 4, 22).Draw(rt, "actions")...)
 	if rapid.Bool().Draw(rt, "all-disconnect-first") {
-		c.Actions = append(c.Actions, act(hist.Action{Kind: "disconnect", Client: 0}), act(hist.Action{Kind: "disconnect", Client: 1}))
+		for cl := 0; cl < 2; cl++ {
+			a := hist.Action{Kind: "disconnect", Client: cl}
+			if versions[cl] == 5 && rapid.Bool().Draw(rt, "final-disc-expiry") {
+				e := pick(rt, "final-expiry", []uint32{50, 5000})
+				a.DiscExpiry = &e
+			}
+			c.Actions = append(c.Actions, act(a))
+		}
 	}
 	c.Actions = append(c.Actions, hist.Action{Kind: "restart"})
 	// second life
-	if rapid.IntRange(0, 3).Draw(rt, "tick") == 0 {
-		c.Actions = append(c.Actions, hist.Action{Kind: "tick", Tick: "clients", Offset: pick(rt, "off", []int64{0, 100, 1000})})
+	if rapid.IntRange(0, 2).Draw(rt, "tick") != 0 {
+		c.Actions = append(c.Actions, hist.Action{Kind: "tick", Tick: "clients", Offset: pick(rt, "off", []int64{0, 100, 1000, 1000})})
 	}
 	c.Actions = append(c.Actions, connect(2, true, true))
 	order := rapid.Permutation([]int{0, 1}).Draw(rt, "order")
@@ -402,7 +414,7 @@ func c20Backends() []string {
 }
 
 func TestC20(t *testing.T) {
-	r := evid.New("C20", "rapid: a first life of 4-22 actions on a broker with one of the four bundled storage backends (bolt / redis via an in-process server / pebble / badger): two subject clients with adversarial identifiers ('a', 'a:b') and protocol versions 3.1/3.1.1/5, clean start 0/1, session expiry absent/0/300, subscriptions on filters containing ':', '_', non-ASCII levels, wildcards and a $share filter with every option (QoS, No Local incl. the refused shared+NoLocal form, Retain As Published, Retain Handling, identifiers incl. the maximum), unsubscribes, publishes by a third client and by the subjects (QoS 0-2, retain incl. clears, v5 application properties, message expiry), manual or automatic acknowledgement (messages left unacknowledged), disconnects, drops, reconnects and takeovers; then a RESTART (connections dropped, Server.Close, new server and fresh hook on the same store, readStore); second life: optional session-expiry tick, the subjects reconnect (mostly clean start 0), probe publishes on every topic, a late '#' subscriber reads the retained store. Oracle (model at shutdown, observed through the protocol, both directions): CONNACK session present == model; deliveries == model's subscriptions incl. No Local, QoS, identifiers, retain flag (C03/C04 oracles re-applied); replayed retained messages == model's retained store incl. payload, application properties and non-growing message expiry; unacknowledged QoS>0 messages of resumed sessions are sent again with their packet identifier. Non-trivial = a session resumed after the restart together with a restored retained or in-flight message; distinct by (history, backend)")
+	r := evid.New("C20", "rapid: a first life of 4-22 actions on a broker with one of the four bundled storage backends (bolt / redis via an in-process server / pebble / badger): two subject clients with adversarial identifiers ('a', 'a:b') and protocol versions 3.1/3.1.1/5, clean start 0/1, session expiry absent/0/300, subscriptions on filters containing ':', '_', non-ASCII levels, wildcards and a $share filter with every option (QoS, No Local incl. the refused shared+NoLocal form, Retain As Published, Retain Handling, identifiers incl. the maximum), unsubscribes, publishes by a third client and by the subjects (QoS 0-2, retain incl. clears, v5 application properties, message expiry), manual or automatic acknowledgement (messages left unacknowledged), disconnects (also carrying a new session expiry 50 / 5000), drops, reconnects and takeovers; then a RESTART (connections dropped, Server.Close, new server and fresh hook on the same store, readStore); second life: optional session-expiry tick, the subjects reconnect (mostly clean start 0), probe publishes on every topic, a late '#' subscriber reads the retained store. Oracle (model at shutdown, observed through the protocol, both directions): CONNACK session present == model; deliveries == model's subscriptions incl. No Local, QoS, identifiers, retain flag (C03/C04 oracles re-applied); replayed retained messages == model's retained store incl. payload, application properties and non-growing message expiry; unacknowledged QoS>0 messages of resumed sessions are sent again with their packet identifier. Non-trivial = a session resumed after the restart together with a restored retained or in-flight message; distinct by (history, backend)")
 	defer r.Finish(t)
 	if evid.ReplayMode() {
 		evid.Replay(t, r, replayPath(), c20Check)
